@@ -59,6 +59,9 @@ def oracle(cases, obs):
                     fails.append((i, k, "verify/cleanup changed a query answer")); break
             if o["oracle"]["canon"]:
                 fails.append((i, k, f"indices corrupted: {o['oracle']['canon']}")); break
+            cl = o.get("clone")
+            if cl and cl.get("problems") and not cl.get("cycle") and taint is None:
+                fails.append((i, k, f"a clone taken earlier (possibly while frozen) and the original are not independent: {cl['problems'][:2]}")); break
             if op[0] == "freeze":
                 frozen = True
             elif op[0] == "unfreeze":
